@@ -194,12 +194,36 @@ def run(ctx):
 
     # ------------------------------------------------------------------ rule 4
     g = CFG(fn)
-    enum_ifs = [n for n in walk_no_nested(fn) if isinstance(n, ast.If) and unparse(n.test) == "self.values"]
-    ok = False
-    if len(enum_ifs) == 1:
-        b = enum_ifs[0].body
-        ok = len(b) == 2 and isinstance(b[0], ast.If) and unparse(b[0].test) == "value not in self.values" and isinstance(b[0].body[0], ast.Raise) \
-            and unparse(b[0].body[0].exc.func) == "FIXMessageError" and isinstance(b[1], ast.Return) and unparse(b[1].value) == "True"
+    # on the CFG: in the branch taken for a field with enumerators, acceptance (`return True`) happens exactly under `value in self.values`,
+    # everything else there raises FIXMessageError, and no other test is consulted
+    valn = fn.args.args[1].arg
+    member = f"{valn} in self.values"
+    allowed = {"self.values", member, f"{valn} not in self.values", f"isinstance({valn}, str)", f"not isinstance({valn}, str)", valn, f"not {valn}"}
+    enum_nodes = []
+    for n in g.nodes:
+        if n.kind not in ("stmt", "test") or n.ast is None:
+            continue
+        fs = set()
+        tests = []
+        for t, lab in g.guards(n.id, exc=False):
+            fs |= facts(t, lab == "true")
+            tests.append(unparse(t))
+        if ("self.values", True) in fs:
+            enum_nodes.append((n, fs, tests))
+    ok = bool(enum_nodes)
+    n_ret = 0
+    for n, fs, tests in enum_nodes:
+        if n.kind == "stmt" and isinstance(n.ast, ast.Return):
+            n_ret += 1
+            ok = ok and unparse(n.ast.value) == "True" and ((member, True) in fs or (f"{valn} not in self.values", False) in fs)
+        elif n.kind == "stmt" and isinstance(n.ast, ast.Raise):
+            ok = ok and n.ast.exc is not None and "FIXMessageError" in unparse(n.ast.exc) and ((member, False) in fs or (f"{valn} not in self.values", True) in fs)
+        elif n.kind == "test":
+            ok = ok and unparse(n.ast) in allowed
+        elif n.kind == "stmt" and not isinstance(n.ast, (ast.Pass, ast.Expr)):
+            ok = False
+        ok = ok and all(t in allowed for t in tests)
+    ok = ok and n_ret >= 1
     ctx.instance(R4, "validate_value[enumerated field]", ok,
                  "for a field with enumerators acceptance is not exactly 'value in the enumerated values' (another test is consulted or a non-member passes)", loc(fn))
 
